@@ -500,6 +500,14 @@ func TestVerifNetMsgEnc(t *testing.T) {
 					} else if vnRequestString(back) != vnRequestString(m) {
 						fail("BlockRequestMessage.Decode", vnRequestString(m), vnRequestString(back), "C14/blockrequest/decode-value")
 					}
+					res.Cmp()
+					if err := vnUsedReq.Decode(exp); err != nil {
+						fail("BlockRequestMessage.Decode (used receiver)", vnRequestString(m), "error: "+err.Error(), "C14/blockrequest/used-receiver/decode-error")
+						vnUsedReq = vnPrimedReq()
+					} else if vnRequestString(vnUsedReq) != vnRequestString(m) {
+						fail("BlockRequestMessage.Decode (used receiver)", vnRequestString(m), vnRequestString(vnUsedReq), "C14/blockrequest/used-receiver/decode-value")
+						vnUsedReq = vnPrimedReq()
+					}
 				case "blockresponse":
 					res.Case("blockresponse", string(c.O.V))
 					m := vnResponse(c.O.V, false)
@@ -518,6 +526,19 @@ func TestVerifNetMsgEnc(t *testing.T) {
 						fail("BlockResponseMessage.Decode", vnResponseString(m), "error: "+err.Error(), "C14/blockresponse/decode-error")
 					} else if vnResponseString(back) != vnResponseString(m) {
 						fail("BlockResponseMessage.Decode", vnResponseString(m), vnResponseString(back), "C14/blockresponse/decode-value")
+					}
+					// decoding is a function of the bytes: a receiver that already holds an earlier (longer) response -- the
+					// sync worker pool hands the same response object to the next peer after a failure -- gives the same value
+					res.Cmp()
+					if err := vnUsedResp.Decode(exp); err != nil {
+						fail("BlockResponseMessage.Decode (used receiver)", vnResponseString(m), "error: "+err.Error(), "C14/blockresponse/used-receiver/decode-error")
+						vnUsedResp = vnPrimedResp()
+					} else if vnResponseString(vnUsedResp) != vnResponseString(m) {
+						fail("BlockResponseMessage.Decode (used receiver)", vnResponseString(m), vnResponseString(vnUsedResp), "C14/blockresponse/used-receiver/decode-value")
+						vnUsedResp = vnPrimedResp()
+					}
+					if len(vnUsedResp.BlockData) < 2 {
+						vnUsedResp = vnPrimedResp()
 					}
 				case "handshake":
 					res.Case("handshake", string(c.O.V))
@@ -572,6 +593,44 @@ type vnDecoder struct {
 	name   string
 	decode func(b []byte) (any, error)
 	encode func(m any) ([]byte, error)
+}
+
+// receivers that are reused from case to case; primed with a long message so that a shorter one follows
+var vnUsedResp = vnPrimedResp()
+var vnUsedReq = vnPrimedReq()
+
+func vnPrimedResp() *messages.BlockResponseMessage {
+	m := &messages.BlockResponseMessage{}
+	for i := 0; i < 5; i++ {
+		h := types.NewEmptyHeader()
+		h.Number = uint(100 + i)
+		body := types.Body{types.Extrinsic{byte(i), 0xaa}}
+		just := []byte{0xee, byte(i)}
+		m.BlockData = append(m.BlockData, &types.BlockData{Hash: h.Hash(), Header: h, Body: &body, Justification: &just})
+	}
+	enc, err := m.Encode()
+	if err != nil {
+		panic("VERIF-INFRA primed response: " + err.Error())
+	}
+	out := new(messages.BlockResponseMessage)
+	if err := out.Decode(enc); err != nil {
+		panic("VERIF-INFRA primed response decode: " + err.Error())
+	}
+	return out
+}
+
+func vnPrimedReq() *messages.BlockRequestMessage {
+	max := uint32(77)
+	m := messages.NewBlockRequest(*messages.NewFromBlock(uint(123456)), max, messages.BootstrapRequestData|messages.RequestedDataJustification, messages.Descending)
+	enc, err := m.Encode()
+	if err != nil {
+		panic("VERIF-INFRA primed request: " + err.Error())
+	}
+	out := new(messages.BlockRequestMessage)
+	if err := out.Decode(enc); err != nil {
+		panic("VERIF-INFRA primed request decode: " + err.Error())
+	}
+	return out
 }
 
 func vnDecoders() map[string]vnDecoder {
